@@ -1737,15 +1737,18 @@ bool QXmppMessage::parseExtension(const QDomElement &element, QXmpp::SceMode sce
         if (checkElement(element, u"html", ns_xhtml_im)) {
             QDomElement bodyElement = element.firstChildElement(u"body"_s);
             if (!bodyElement.isNull() && bodyElement.namespaceURI() == ns_xhtml) {
-                QTextStream stream(&d->xhtml, QIODevice::WriteOnly);
-                bodyElement.save(stream, 0);
+                // serialize the content of the <body/> element (not the element
+                // itself) into a fresh string
+                QString xhtml;
+                QTextStream stream(&xhtml, QIODevice::WriteOnly);
+                for (auto node = bodyElement.firstChild(); !node.isNull(); node = node.nextSibling()) {
+                    node.save(stream, 0);
+                }
 
-                d->xhtml = d->xhtml.mid(d->xhtml.indexOf(u'>') + 1);
-                d->xhtml.replace(
+                xhtml.replace(
                     u" xmlns=\"http://www.w3.org/1999/xhtml\""_s,
                     QString());
-                d->xhtml.replace(u"</body>"_s, QString());
-                d->xhtml = d->xhtml.trimmed();
+                d->xhtml = xhtml.trimmed();
             }
             return true;
         }
